@@ -173,7 +173,42 @@ def tables():
         f"def moduleContextLookup : String := {lstr(lookup or '')}",
         f"def resolveImportRecursiveCalls : Nat := {rec}",
         f"def resolveImportParams : List String := [{', '.join(lstr(p) for p in params)}]",
-    ] + blacklist_tables() + local_tables()
+    ] + blacklist_tables() + local_tables() + round4_tables()
+
+
+def round4_shape():
+    """(a) every assignment to `filepath` inside derive_module_name_from_path (how the path is normalised before it is
+    turned into a dotted name: the model takes it AS GIVEN); (b) the statements of the `isinstance(target, Import)` branch
+    of find_call_target_and_ir (the model goes straight into resolve_import)."""
+    import ast
+    import inspect
+
+    from rattr.module_locator import util as U
+    from rattr.results import _find_call_target as F
+
+    fn = ast.parse(inspect.getsource(U.derive_module_name_from_path.__wrapped__)).body[0]
+    norm = [ast.unparse(n) for n in ast.walk(fn)
+            if isinstance(n, (ast.Assign, ast.AnnAssign, ast.AugAssign, ast.NamedExpr))
+            and any(isinstance(t, ast.Name) and t.id == "filepath"
+                    for t in (n.targets if isinstance(n, ast.Assign) else [n.target]))]
+    fc = ast.parse(inspect.getsource(F.find_call_target_and_ir)).body[0]
+    branch = []
+    for st in fc.body:
+        if (isinstance(st, ast.If) and isinstance(st.test, ast.Call) and ast.unparse(st.test) == "isinstance(target, Import)"):
+            branch = [ast.unparse(x) for x in st.body] + (["else: …"] if st.orelse else [])
+    return norm, branch
+
+
+def round4_tables():
+    norm, branch = round4_shape()
+    esc = lambda x: lstr(x).replace("\n", "\\n")
+    ll = lambda xs: "[" + ", ".join(esc(x) for x in xs) + "]"
+    return [
+        "/-- every assignment to `filepath` in `derive_module_name_from_path` -/",
+        f"def deriveModuleNamePathAssignments : List String := {ll(norm)}",
+        "/-- the `isinstance(target, Import)` branch of `find_call_target_and_ir`, statement by statement -/",
+        f"def findCallTargetImportBranch : List String := {ll(branch)}",
+    ]
 
 
 def local_tables():
